@@ -85,7 +85,9 @@ func ToCatalog(rows []any, ident string, identRight string, joinExpr sqlparser.E
 			return false, nil
 		}
 		if column, ok := node.(*sqlparser.ColName); ok {
-			if own, _, name, err := extractColumnsFromExpr(ident, column); err == nil && own && !slices.Contains(columns, name) {
+			// (a side that is itself a join has no name of its own: what does
+			// not belong to the other side belongs to it)
+			if own, qualifier, name, err := extractColumnsFromExpr(ident, column); err == nil && (own || len(ident) == 0 && qualifier != identRight) && !slices.Contains(columns, name) {
 				columns = append(columns, name)
 			}
 		}
